@@ -770,6 +770,21 @@ Proof.
       (eapply same_graph_trans; [exact G1|]; eapply same_graph_trans; [exact G2|]; repeat split).
 Qed.
 
+Lemma pull_graph st l wp : same_graph st (fst (pull st l wp)).
+Proof.
+  unfold pull. destruct (find_child l (w_children st)) as [c|]; [|apply same_graph_refl].
+  destruct (build_io st DIn) as [pin|]; [|apply same_graph_refl].
+  destruct (build_io st DOut); [|apply same_graph_refl].
+  destruct (cyclic st || (wp && exposes_connected st pin)); [apply same_graph_refl|].
+  set (st0 := if wp then fetch_ids st (map snd pin) else st).
+  assert (G0 : same_graph st st0) by (unfold st0; destruct wp; repeat split).
+  match goal with |- same_graph st (fst (set_cache (run_self ?s1 c) None, ROk)) =>
+    assert (G1 : same_graph st0 s1) end.
+  { destruct (filter _ (w_children st0)); [apply same_graph_refl|].
+    match goal with |- context [if ?h then _ else _] => destruct h end; repeat split. }
+  simpl. eapply same_graph_trans; [exact G0|]. eapply same_graph_trans; [exact G1|]. repeat split.
+Qed.
+
 Lemma step_wfs st o : wfs st -> wfs (fst (step st o)).
 Proof.
   intros W. destruct o; simpl.
@@ -800,6 +815,7 @@ Proof.
   - unfold set_inputs. destruct (build_io st DIn) as [p|]; [|exact W].
     destruct (negb (forallb (fun kv => mems (fst kv) (map fst p)) kw)); [exact W|].
     eapply wfs_same; [apply assign_all_graph|exact W].
+  - eapply wfs_same; [apply pull_graph|exact W].
 Qed.
 
 Lemma run_ops_wfs ops : forall st, wfs st -> wfs (run_ops st ops).
